@@ -1,9 +1,11 @@
 import DatamonVerif.Drv.C22
+import DatamonVerif.Drv.C21
 open DV
 
 def main (args : List String) : IO UInt32 := do
   let inp ← IO.getStdin
   let out ← IO.getStdout
   match args with
+  | ["model", "C21"] => loop C21.handler inp out C21.handler.init; return 0
   | ["model", "C22"] => loop C22.handler inp out C22.handler.init; return 0
   | _ => IO.eprintln "usage: dvdriver model <Cxx>"; return 2
